@@ -15,7 +15,7 @@ CHECKS = {
             "Real executions for 3 styles x 2 utf8 settings x 9 row separators per generated value set; every row is read back by an independent strict reader, layout predicates are evaluated on the raw bytes, and the output is fed back for the fixpoint.",
             "Trusts the strict reader and the pretty-layout checker; fixpoint demanded for whitespace separators and the identity pipeline only; open known findings astral-escape and nonfinite-number are matched by exact defect models.", "5 C02"),
     "C06": ("exploration", "runtime monitoring: differential oracle (noisy run vs noise-free run of the same build) plus per-policy stream predicates at the stdout/stderr/Result boundary",
-            "Each generated noisy stream (garbage tokens in the gaps, a value cut off by the end of the input, malformed / unrepresentable number tokens, strings that look like JSON syntax; 13 pipelines incl. --only-objects-and-arrays and &index readers; the stream also as a file with a long / non-ASCII name or inside a nested directory) is run under all four policies and compared with the run on the noise-free stream; panic policy additionally bounded by bytes pulled from the instrumented reader.",
+            "Hundreds of bracket-balanced malformed arrays/objects in front of ordinary values must leave the rows of those values alone (rows(X.Y) = rows(X) then rows(Y)).  Each generated noisy stream (garbage tokens in the gaps, a value cut off by the end of the input, malformed / unrepresentable number tokens, strings that look like JSON syntax; 13 pipelines incl. --only-objects-and-arrays and &index readers; the stream also as a file with a long / non-ASCII name or inside a nested directory) is run under all four policies and compared with the run on the noise-free stream; panic policy additionally bounded by bytes pulled from the instrumented reader.",
             "Garbage tokens contain no CR/LF and no LF directly follows a cut-off value, so an error: line is one line; the text and position of error lines are not demanded (the property does not fix them).", "5 C06"),
     "C16": ("fault_enumeration", "runtime monitoring with fault injection: hard read error at every input offset and hard write error at every output offset of each generated run, observed at the instrumented Read/Write boundary",
             "For every generated input the fault point ranges over all byte offsets of the input (read) and of the fault-free output (write, also stderr), each a real execution; the oracle demands Err, no panic, no read after the error and prefix-of-fault-free output; error kinds vary with the offset; write faults are also transient (one failing call, then the sink takes bytes again: no write call may follow) and also hit runs whose input is a file in a directory argument; read faults are also transient, and files whose read fails (links to /proc/self/mem, named directly or met inside a directory, also under names that are not UTF-8) must end the run with an error.",
@@ -42,10 +42,10 @@ CHECKS = {
             "The release binary built from the working tree is spawned on generated inputs under all policies, valid and invalid configurations and three kinds of stdout; streams and exit status are compared with the in-process reference and the exit status also with the documented outcome (a valid configuration fails only under --on-error=panic on malformed input); inputs that cannot be read (stdin = a directory, missing / unreadable file, UNIX socket) must fail with a message, readable inputs reached through links and nested directories must succeed with the plain file's rows; rows of 3-5 KB in 20 % of the units; values typed on a pseudo-terminal (nothing typed after Ctrl-D is read); stdin as a file positioned behind a header.",
             "The in-process run of the same library is the reference for stream contents; process-level behaviour (which fd, exit status, lost output) is decided here, success/failure also against the documented rule.", "5 C20"),
     "C05": ("exploration", "runtime monitoring: panic hook + catch_unwind + process-death + watchdog-with-isolated-confirmation around the real jawk::go; exhaustive small byte strings in the driver; ASan / valgrind / Miri shards in the thorough tier",
-            "Exhaustive over all byte strings up to length 4 (quick, plus a 1/8 shard of length 5) or 6 (thorough) over the 24-byte JSON alphabet; seeded mutations of valid streams up to 4 KiB; generated (50 % ill-typed) expressions with multi-byte characters at chosen offsets and boundary numeric arguments in every option position; a boundary matrix (numeric and number-as-string functions over 23 extreme numbers / 24 extreme decimal strings, string functions over empty and one-character strings); expressions nested 20-64 deep built from one wrapper; exec/trigger with a fixed list of harmless commands (children that fill either pipe, die by signal, outlive the run); release and debug (overflow-checking) builds; driver processes under a 6 GiB address-space cap so that unbounded allocation ends as an attributed abort.",
+            "A complete arity sweep (every documented function name x 0..3 (thorough 0..4) arguments x every tuple over 5 (8) boundary arguments); exhaustive over all byte strings up to length 4 (quick, plus a 1/8 shard of length 5) or 6 (thorough) over the 24-byte JSON alphabet; seeded mutations of valid streams up to 4 KiB; generated (50 % ill-typed) expressions with multi-byte characters at chosen offsets and boundary numeric arguments in every option position; a boundary matrix (numeric and number-as-string functions over 23 extreme numbers / 24 extreme decimal strings, string functions over empty and one-character strings); expressions nested 20-64 deep built from one wrapper; exec/trigger with a fixed list of harmless commands (children that fill either pipe, die by signal, outlive the run); release and debug (overflow-checking) builds; driver processes under a 6 GiB address-space cap so that unbounded allocation ends as an attributed abort.",
             "Only the explored inputs/expressions are covered; non-termination is restated as no return within 20 s confirmed by a 60 s isolated re-run; resource exhaustion (range/collections > 10^4, nesting > 64) is out of the property's domain.", "5 C05, 6"),
     "C11": ("exploration", "runtime monitoring: metamorphic oracle on stdout bytes (out(A.B) = out(A).out(B), also B.A and A.A) for generated stateless pipelines (also under --only-objects-and-arrays with top-level scalars between the records)",
-            "Five real runs per generated (pipeline, A, B); pure byte comparison, no model; expressions from the full generated grammar, all output styles, regex cache sizes 0/1/2.",
+            "Five real runs per generated (pipeline, A, B); units with nested bindings entered for some records only also run every record in a process state of its own; pure byte comparison, no model; expressions from the full generated grammar, all output styles, regex cache sizes 0/1/2.",
             "Runs that fail for configuration reasons or panic are skipped and counted (C18/C05).", "5 C11"),
     "C12": ("exploration", "runtime monitoring: metamorphic oracle inside one run (bound form vs manually substituted form as paired columns; same expression in several --select positions)",
             "Bindings (set, define, --set variable/macro) are evaluated next to their substituted forms, usually inside a nested input so that ^ crosses the binding; the same expression is also placed in 2-4 selects, also after --split-by; pipes (| a b1..bk ^^..) must yield the value of the corresponding stage prefix (identity-like stages included); a --set macro reading a variable bound at the place of use must follow that binding; a --set binding used in --split-by/--filter/--sort-by/--group-by against the value written out; /name/ references inside set/define bodies; 3 % of the units run 700-2000 sparse records first.",
